@@ -1,6 +1,7 @@
 package harness
 
 import (
+	"bytes"
 	"context"
 	"fmt"
 	"net/http"
@@ -113,6 +114,16 @@ func (rw *refWeb) respond(req *http.Request, data []byte, total int64, lo int64,
 		}
 	case 9: // stall
 		body.stallAt = st.Choice(len(data) + 1)
+	case 12: // 206 whose Content-Range has the "unsatisfied" form, and the file from its start as body
+		if rangeAsked {
+			hdr.Set("Content-Range", fmt.Sprintf("bytes */%d", total))
+			if lo > 0 && int64(len(data)) <= lo {
+				// authentic bytes of the same file - those at offset 0, not the ones asked for
+				if alt := rw.altBytes(req, int64(len(data))); alt != nil {
+					body.data = alt
+				}
+			}
+		}
 	case 11: // fewer bytes than asked for, announced as such: a consistent, shorter 206
 		if rangeAsked && len(data) > 1 {
 			k := 1 + st.Choice(len(data)-1)
@@ -136,6 +147,16 @@ func (rw *refWeb) respond(req *http.Request, data []byte, total int64, lo int64,
 	return MakeResponse(status, hdr, body, cl), nil
 }
 
+// altBytes returns the first n bytes of the file a GetRight request names.
+func (rw *refWeb) altBytes(req *http.Request, n int64) []byte {
+	p := strings.TrimPrefix(req.URL.Path, "/base/")
+	f := rw.file(strings.Split(p, "/"))
+	if f == nil || f.Length < n {
+		return nil
+	}
+	return rw.spec.Bytes(f.Offset, n)
+}
+
 // noteHoldable: data for these torrent bytes was served (a 200 reply may
 // even carry the whole file), so the system may come to hold the pieces.
 func (rw *refWeb) noteHoldable(lo, hi int64) {
@@ -148,7 +169,7 @@ func (rw *refWeb) behaviour() int {
 	if !rw.hostile {
 		return 0
 	}
-	return rw.st.Weighted(6, 1, 1, 1, 1, 1, 1, 2, 1, 1, 1, 2)
+	return rw.st.Weighted(6, 1, 1, 1, 1, 1, 1, 2, 1, 1, 1, 2, 2)
 }
 
 // getright serves files under /base/.
@@ -319,6 +340,26 @@ func webseedMain(rc *RunCtx) {
 			for c := 0; c < nch; c++ {
 				if bmAfter.Get(c) && !bmBefore.Get(c) && (c < c0 || c >= c1) && !t.Pieces.Complete(uint32(i)) {
 					rc.Fail("C14", "store", "outside-range", "the fetch of piece %d blocks [%d, %d) stored block %d", i, c0, c1, c)
+				}
+			}
+			// what is stored is stored where it belongs: unless the server
+			// sent wrong bytes on purpose (behaviour 10) or bytes beyond what
+			// was announced (8), a block that appeared holds the torrent's
+			// bytes for that place
+			corrupting := false
+			for _, r := range rw.reqs[first:] {
+				if r.behaviour == 10 || r.behaviour == 8 {
+					corrupting = true
+				}
+			}
+			if data := t.Pieces.SimData(i); !corrupting && data != nil && !t.Pieces.Complete(uint32(i)) {
+				truth := spec.Piece(i)
+				for c := 0; c < nch; c++ {
+					lo, hi := c*chunkSize, min((c+1)*chunkSize, len(truth))
+					if bmAfter.Get(c) && !bmBefore.Get(c) && hi <= len(data) && !bytes.Equal(data[lo:hi], truth[lo:hi]) {
+						rc.Fail("C14", "store", "misplaced", "the fetch of piece %d blocks [%d, %d) stored in block %d bytes that are not the torrent's bytes for that block, although the server sent only authentic file content", i, c0, c1, c)
+						break
+					}
 				}
 			}
 			for j, s := range others {
